@@ -1,5 +1,6 @@
 mod builtins;
 mod gen_alias;
+mod gen_dict;
 mod gen_fault;
 mod gen_common;
 mod ir;
